@@ -106,6 +106,7 @@ pub fn run_a(sc: &ScenarioA, keep_events: bool) -> OutcomeA {
     MAIN_RESULT.with(|m| *m.borrow_mut() = None);
 
     let gui = Rc::new(RefCell::new(GuiState::new(sc.script.clone())));
+    gui.borrow_mut().resend_position = sc.knobs.resend_position;
     let mut sim = Sim::new();
     sim.poll_interval = sc.knobs.poll_interval;
     sim.initial_hash_mb = sc.knobs.initial_hash_mb;
